@@ -14,6 +14,11 @@
 //!              every registry type; several messages written back to back are read back one
 //!              by one with msgs::read, read_message::<T> and from_reader, equal, nothing left;
 //!              plus frames with a wrong length prefix / truncated streams through msgs::read
+//!   carrier    (binary `carrier` = this file built with feature `proxy`) the same frames over a real
+//!              UnixStream::pair() through vls-proxy's UnixConnection / UnixClient::read_raw (how both
+//!              proxy loops take requests off the hsmd socket), delivered in 1, 2 and 3 segments (the
+//!              next segment is written only after the reader had time to consume the previous one);
+//!              and replies written with UnixClient::write / write_vec read back from the node's end
 //!   psbt       StreamedPSBT: consistent and inconsistent PSBTs (incl. bare witness_utxo claims about
 //!              admissible and legacy outputs) through SignWithdrawal; the view
 //!              the model reads, what the decoder produced, and the reference computed here.
@@ -1477,6 +1482,170 @@ fn framed_domain(args: &Args) {
                          "max_stream_len": max_stream, "malformed_frames": n_mal, "malformed_kinds": kinds}));
 }
 
+// ------------------------------------------------------------------ the carrier (vls-proxy hsmd socket)
+
+#[cfg(feature = "proxy")]
+fn carrier_domain(args: &Args) {
+    use std::io::{Read as _, Write as _};
+    use std::os::fd::IntoRawFd;
+    use std::os::unix::net::UnixStream;
+    use std::time::Duration;
+    use vls_proxy::client::{Client, UnixClient};
+    use vls_proxy::connection::UnixConnection;
+
+    let mut rng = Rng::new(args.seed ^ 0x63617272);
+    let ntypes = TYPES.len();
+    let psbt_types: Vec<usize> = TYPES.iter().enumerate().filter(|(_, t)| t.has_streamed).map(|(i, _)| i).collect();
+    let mut n_frames = 0u64;
+    let mut monitor = 0u64;
+    let mut by_segments = [0u64; 4];
+    let mut cut_kinds: std::collections::BTreeMap<&'static str, u64> = Default::default();
+    let mut max_frame = 0usize;
+    for j in 0..args.n {
+        // 1-3 messages back to back; every third case has a large streamed-PSBT request, every
+        // fifth a long byte string
+        let mut specs: Vec<(usize, u64, Profile, Option<(usize, usize)>)> = vec![];
+        let nm = 1 + rng.below(3) as usize;
+        for k in 0..nm {
+            let seed = args.seed.wrapping_mul(4099).wrapping_add((j * 8 + k) as u64);
+            if j % 3 == 0 && k == nm - 1 {
+                let t = psbt_types[(j / 3) % psbt_types.len()];
+                specs.push((t, seed, Profile::Max, Some((0, 300 + rng.below(900) as usize)))); // many utxos + PSBT
+            } else if j % 5 == 1 && k == nm - 1 {
+                let t = TYPES.iter().position(|t| t.name == "SignMessage").unwrap_or(0);
+                specs.push((t, seed, Profile::Max, Some((0, 20000 + rng.below(40000) as usize))));
+            } else {
+                specs.push(((j * 3 + k) % ntypes, seed, if rng.chance(1, 4) { Profile::Max } else { Profile::Rand }, None));
+            }
+        }
+        let sent: Vec<(&TypeInfo, Box<dyn AnyMsg>)> =
+            specs.iter().map(|(t, s, p, tg)| (&TYPES[*t], gen_value(&TYPES[*t], *s, *p, *tg).0)).collect();
+        let payloads: Vec<Vec<u8>> = sent.iter().map(|(_, m)| m.bytes()).collect();
+        let mut stream: Vec<u8> = vec![];
+        let mut starts = vec![];
+        for p in &payloads {
+            starts.push(stream.len());
+            msgs::write_vec(&mut stream, p.clone()).expect("write_vec");
+            max_frame = max_frame.max(p.len() + 4);
+        }
+        // where the stream is cut into segments: relative to the LAST frame (the earlier ones arrive whole,
+        // so the cut frame also "straddles a preceding one")
+        let last = *starts.last().unwrap();
+        let body = payloads.last().unwrap().len();
+        let (what, mut cuts): (&'static str, Vec<usize>) = match j % 8 {
+            0 => ("one-segment", vec![]),
+            1 => ("body-middle", vec![last + 4 + body / 2]),
+            2 => ("after-length-prefix", vec![last + 4]),
+            3 => ("inside-length-prefix", vec![last + 2]),
+            4 => ("after-type", vec![last + 4 + 2.min(body)]),
+            5 => ("last-byte-late", vec![last + 4 + body - 1]),
+            6 => ("three-segments", vec![last + 4 + body / 3, last + 4 + 2 * body / 3]),
+            _ => ("prefix-and-body", vec![last + 3, last + 4 + 1 + rng.below(body.max(2) as u64 - 1) as usize]),
+        };
+        cuts.retain(|c| *c > 0 && *c < stream.len());
+        cuts.dedup();
+        *cut_kinds.entry(what).or_insert(0) += 1;
+        by_segments[cuts.len() + 1] += 1;
+        let mut segments: Vec<Vec<u8>> = vec![];
+        let mut at = 0;
+        for c in cuts.iter().chain(std::iter::once(&stream.len())) {
+            segments.push(stream[at..*c].to_vec());
+            at = *c;
+        }
+        let (node_end, proxy_end) = UnixStream::pair().expect("socketpair");
+        let segs = segments.clone();
+        let writer = std::thread::spawn(move || {
+            let mut node_end = node_end;
+            for (i, sg) in segs.iter().enumerate() {
+                // the reader is already blocked in read(); give it time to take the previous segment
+                std::thread::sleep(Duration::from_millis(if i == 0 { 5 } else { 40 }));
+                if node_end.write_all(sg).is_err() {
+                    break;
+                }
+            }
+            node_end // kept open until the reader is done
+        });
+        let mut client = UnixClient::new(UnixConnection::new(proxy_end.into_raw_fd()));
+        let mut out = 0u32;
+        let mut detail = String::from("ok");
+        for (i, (ti, m)) in sent.iter().enumerate() {
+            n_frames += 1;
+            match catch_unwind(AssertUnwindSafe(|| client.read_raw())) {
+                Ok(Ok(raw)) => {
+                    if raw != payloads[i] {
+                        out = 1;
+                        detail = format!("read_raw returned {} bytes that are not the {} bytes sent for {}", raw.len(), payloads[i].len(), ti.name);
+                        break;
+                    }
+                    match msgs::from_vec(raw) {
+                        Ok(msg) => {
+                            let (variant, canon, _) = describe(&msg);
+                            if variant != ti.name || canon != m.canon_msg(false) {
+                                out = 1;
+                                detail = format!("frame {} decodes to a different message", ti.name);
+                                break;
+                            }
+                        }
+                        Err(e) => {
+                            out = 1;
+                            detail = format!("frame {} does not decode: {}", ti.name, err_kind(&e));
+                            break;
+                        }
+                    }
+                }
+                Ok(Err(e)) => {
+                    out = 1;
+                    detail = format!("UnixClient::read_raw refused the complete frame of {} ({} bytes, delivered as {:?}-byte segments): {}",
+                                     ti.name, payloads[i].len(), segments.iter().map(|x| x.len()).collect::<Vec<_>>(), err_kind(&e));
+                    break;
+                }
+                Err(_) => {
+                    out = 1;
+                    detail = "UnixClient::read_raw panicked".into();
+                    break;
+                }
+            }
+        }
+        // replies: what the proxy writes must arrive at the node's end as frame(as_vec)
+        let node_end = writer.join().expect("writer");
+        if out == 0 {
+            let (ti, _) = &sent[0];
+            let expect = {
+                let mut b = vec![];
+                msgs::write_vec(&mut b, payloads[0].clone()).unwrap();
+                b
+            };
+            let mut node_end = node_end;
+            node_end.set_read_timeout(Some(Duration::from_secs(5))).ok();
+            let exp_len = expect.len();
+            let rd = std::thread::spawn(move || {
+                let mut got = vec![0u8; exp_len];
+                let r = node_end.read_exact(&mut got);
+                (r.is_ok(), got)
+            });
+            let wrote = client.write_vec(payloads[0].clone()).is_ok();
+            let (ok, got) = rd.join().expect("reader");
+            if !wrote || !ok || got != expect {
+                out = 1;
+                detail = format!("a reply {} written through UnixClient did not arrive as frame(as_vec) at the node's end", ti.name);
+            }
+        }
+        if out != 0 {
+            monitor += 1;
+        }
+        let terms: Vec<String> = sent.iter().map(|(_, m)| m.coq_msg()).collect();
+        let coq = format!("({}%list, {}, {}%N)", coq_list(&terms), coq_bytes(&stream), out);
+        emit("CARRIER", json!({"case": j, "types": sent.iter().map(|(t, _)| t.name).collect::<Vec<_>>(), "cut": what,
+                               "segments": segments.iter().map(|x| x.len()).collect::<Vec<_>>(), "len": stream.len(),
+                               "out": out, "detail": detail, "monitor_violation": if out != 0 { detail.clone() } else { String::new() },
+                               "coq": coq, "values": if out != 0 && stream.len() < 3000 { terms.clone() } else { vec![] },
+                               "stream_hex": if out != 0 && stream.len() < 3000 { hex::encode(&stream) } else { String::new() }}));
+    }
+    emit("STATS", json!({"domain": "wire-carrier", "cases": args.n, "frames": n_frames, "monitor_violations": monitor,
+                         "by_segments": {"1": by_segments[1], "2": by_segments[2], "3": by_segments[3]}, "cuts": cut_kinds,
+                         "max_frame_len": max_frame}));
+}
+
 // ------------------------------------------------------------------ streamed PSBT
 
 fn psbt_domain(args: &Args) {
@@ -1630,6 +1799,8 @@ fn main() {
         "malformed" => malformed_domain(&args),
         "psbt" => psbt_domain(&args),
         "framed" => framed_domain(&args),
+        #[cfg(feature = "proxy")]
+        "carrier" => carrier_domain(&args),
         other => {
             eprintln!("unknown sub-domain {}", other);
             std::process::exit(2);
